@@ -15,7 +15,7 @@ from vf import core
 from vf.checks import re_common as rc
 from vf.checks.re_common import hx, INT_MAX
 
-THM = ["YaraModel.Thm.C02"]
+THM = ["YaraModel.Thm.C02", "YaraModel.Thm.C02EndToEnd"]
 MANIFEST = dict(
     technique="Lean 4: specification of the regexp AST (sets of end positions, cross-checked against a relational formulation), theorems on jump splitting, atom "
               "decomposition, the chain bookkeeping and the bytecode VM + spec-level correspondence against the real compiler/scanner + AST tie through the re_ast "
@@ -29,7 +29,7 @@ MANIFEST = dict(
          "length per head offset is what finding C02-chain-single-length violates); the bytecode VM model (yr_re_exec) is sound on the code of the emit model for EVERY hex "
          "AST (HexAst: bytes, ??, nibble masks, ~ negations, jumps, alternatives nested to any depth - no fragment restriction; code below the emitter's int16 jump range) "
          "all buffers, start positions and flags, for the forward code (vm_sound) and for the backward code run with RE_FLAGS_BACKWARDS (vm_sound_backward: every reported "
-         "length L has L <= start and the pattern matches buf[start-L, start)) - the hex instances of the theorems for all well-formed expressions of Thm/C03. the verification step around an atom is sound for every candidate offset: forward code entered at the atom node's instruction + backward code entered behind it, reporting lf and lb, imply that the whole pattern matches buf[o-lb, o+lf) (verify_from_atom_sound: all hex ASTs, every byte / masked / ?? node, all buffers and offsets - so the soundness of the chain atoms -> automaton -> scan -> verification needs nothing about atoms or the automaton); splitting at the chaining points (Model/ReSplit.lean: every top-level non-greedy jump with n > 200 or m > 200, whatever its width, that has siblings on both sides) preserves the language: the pattern matches iff its pieces match one after the other with every gap inside the jump's bounds (chain_split_sem); the scan of one hex string in one block is sound end to end over the model chain candidates -> verification (forward + exhaustive backward run from the entry's code positions) -> match callback -> match list, for ANY candidate list whose entries point to atom nodes of the pattern or are the zero-length atom (hex_scan_sound, Model/ReScan.lean); the atoms handed to yr_ac_add_string (Model/ReAtoms.lean: walk with the sliding window, trim, OR/AND tree, choice - for EVERY quality function - wildcard expansion, wide / nocase variants, zero-length atom) cover every match: along every match [p,q) of a hex AST one of these byte sequences occurs literally at a position s where the pattern splits into the part before the atom's node (matching [p,s)), the node, and the rest (up to q), and the code positions recorded for the atom are the entry points of verify_from_atom_sound (reAtoms_cover); VM COMPLETENESS for the executable model of yr_re_exec (fiber list, de-duplication, _yr_re_fiber_sync with its executed-split set, per-position pass) on hex code run from its first instruction: for every hex AST in which the first branch of each alternative begins with a byte-like token or a jump that may skip a byte (every AST the hex grammar builds), all buffers and start positions, every match of length <= 1024 at the start position has its length reported by the exhaustive run that ends without an error (hypothesis: the run returns a result = fiber limit and fuel bounds not hit; <= 256 alternatives, byte mode), forward code and, mirrored, backward code (vm_complete_hex, vm_complete_hex_backward; alternatives whose first branch begins with a degenerate jump [0-0] are not covered - the hex grammar cannot build them: hexGrammar_builds_HexG proves, over an inductive description of hex_grammar.y (tokens, `tokens` = token (token | jump)* token, alternatives, pieces of a chained string), that every AST it builds and its mirror image lie in that fragment with nibble masks only, and the run CHECKS it: the decidable shape predicates of Model/ReHexG.lean are evaluated on every piece of the AST the real hex parser built for every generated and corpus string, a string outside the fragment is a violation (coverage hexg_checked / hexg_false; hexG_tie_sound: the decision procedure is sound, and hexG is exactly the fragment). The one family of legal strings outside the description - a jump with an upper bound >= 65536 directly after a chaining point, whose bound the emitter truncates to 16 bits, notes/C02-jump-after-chaining-point-truncated.diff - is not generated); the same for the verification runs around an atom - the forward run entered at the atom node's instruction ends with a result >= 0 in any mode (KILL_TAIL only drops fibers after a result is set) and the exhaustive backward run entered behind it reports the length of the part before the node, for every match that runs through the node within the 1024-byte windows (verify_from_atom_complete); and the scan of one hex string in one block is COMPLETE over the model chain atoms -> candidates -> verification -> match callback -> match list: every match of at most 1024 bytes has its offset in the match list, GIVEN the automaton contract as a hypothesis (wherever the bytes of an extracted atom occur literally, the candidate list holds the entry with the atom's code positions) and no verification run ending in an error (hex_scan_complete_partial = reAtoms_cover + verify_from_atom_complete + the match list only grows); NOT proved: VM soundness and completeness for the fast "
+         "length L has L <= start and the pattern matches buf[start-L, start)) - the hex instances of the theorems for all well-formed expressions of Thm/C03. the verification step around an atom is sound for every candidate offset: forward code entered at the atom node's instruction + backward code entered behind it, reporting lf and lb, imply that the whole pattern matches buf[o-lb, o+lf) (verify_from_atom_sound: all hex ASTs, every byte / masked / ?? node, all buffers and offsets - so the soundness of the chain atoms -> automaton -> scan -> verification needs nothing about atoms or the automaton); splitting at the chaining points (Model/ReSplit.lean: every top-level non-greedy jump with n > 200 or m > 200, whatever its width, that has siblings on both sides) preserves the language: the pattern matches iff its pieces match one after the other with every gap inside the jump's bounds (chain_split_sem); the scan of one hex string in one block is sound end to end over the model chain candidates -> verification (forward + exhaustive backward run from the entry's code positions) -> match callback -> match list, for ANY candidate list whose entries point to atom nodes of the pattern or are the zero-length atom (hex_scan_sound, Model/ReScan.lean); the atoms handed to yr_ac_add_string (Model/ReAtoms.lean: walk with the sliding window, trim, OR/AND tree, choice - for EVERY quality function - wildcard expansion, wide / nocase variants, zero-length atom) cover every match: along every match [p,q) of a hex AST one of these byte sequences occurs literally at a position s where the pattern splits into the part before the atom's node (matching [p,s)), the node, and the rest (up to q), and the code positions recorded for the atom are the entry points of verify_from_atom_sound (reAtoms_cover); VM COMPLETENESS for the executable model of yr_re_exec (fiber list, de-duplication, _yr_re_fiber_sync with its executed-split set, per-position pass) on hex code run from its first instruction: for every hex AST in which the first branch of each alternative begins with a byte-like token or a jump that may skip a byte (every AST the hex grammar builds), all buffers and start positions, every match of length <= 1024 at the start position has its length reported by the exhaustive run that ends without an error (hypothesis: the run returns a result = fiber limit and fuel bounds not hit; <= 256 alternatives, byte mode), forward code and, mirrored, backward code (vm_complete_hex, vm_complete_hex_backward; alternatives whose first branch begins with a degenerate jump [0-0] are not covered - the hex grammar cannot build them: hexGrammar_builds_HexG proves, over an inductive description of hex_grammar.y (tokens, `tokens` = token (token | jump)* token, alternatives, pieces of a chained string), that every AST it builds and its mirror image lie in that fragment with nibble masks only, and the run CHECKS it: the decidable shape predicates of Model/ReHexG.lean are evaluated on every piece of the AST the real hex parser built for every generated and corpus string, a string outside the fragment is a violation (coverage hexg_checked / hexg_false; hexG_tie_sound: the decision procedure is sound, and hexG is exactly the fragment). The description forbids two adjacent jumps: hex_grammar.y merges consecutive jumps since the fix F73 of the defect this tie found - a jump with an upper bound >= 65536 directly after a chaining point was truncated to 16 bits - and the generator produces consecutive jumps); the same for the verification runs around an atom - the forward run entered at the atom node's instruction ends with a result >= 0 in any mode (KILL_TAIL only drops fibers after a result is set) and the exhaustive backward run entered behind it reports the length of the part before the node, for every match that runs through the node within the 1024-byte windows (verify_from_atom_complete); and the scan of one hex string in one block is COMPLETE over the model chain atoms -> candidates -> verification -> match callback -> match list: every match of at most 1024 bytes has its offset in the match list, GIVEN the automaton contract as a hypothesis (wherever the bytes of an extracted atom occur literally, the candidate list holds the entry with the atom's code positions) and no verification run ending in an error (hex_scan_complete_partial = reAtoms_cover + verify_from_atom_complete + the match list only grows); END TO END for one non-chained hex string in one block (Thm/C02EndToEnd hex_end_to_end_partial, hex_end_to_end_offsets_partial): the automaton contract is DISCHARGED by the Aho-Corasick theorems (Thm/AcBuild build_sound) - over the model chain atomsOf -> AC.Build.build of these atoms (label = position of the atom in the list, backtrack 0) -> AC.scan of the block -> candsOf (the report of atom i at offset s becomes the candidate with the code positions of the node atom i begins at, equal to fwdRef / bwdRef: candOfAtom_refs; zero-length atom: forward code from its beginning) -> scanHex, for every AST the hex grammar builds, every quality function and buffer: every entry of the match list is a match, every match of at most 1024 bytes has its offset in the list, and when no match in the block exceeds 1024 bytes an offset is reported iff the specification admits it; remaining hypotheses: the automaton was built (build = some, given by build_some up to 32637 atom bytes), fewer than 2^32 atoms, no verification run ends in an error, code < 32000 bytes, <= 256 alternatives, byte mode; _partial: the automaton model's match entries carry a label but no code references (looked up from the atom list; their equality with the real entries is the atoms tie), other strings sharing the automaton, chains, several blocks are outside; NOT proved: VM soundness and completeness for the fast "
          "matcher yr_re_fast_exec, the automaton contract (Aho-Corasick reports every literal occurrence of an atom, masked atoms included), chains of more than two pieces, atom extraction and Aho-Corasick. That gap is covered by SAMPLING on every run: generated patterns x buffers through the real engine vs. the compiled Lean specification "
          "(complete match lists, both directions of the iff), the parser AST tie, the real bytecode through the C VM and the Lean VM model (exact agreement incl. callback "
          "order), the whole-pattern code run exhaustively vs. the specification, the Lean emit model vs. the bytes yr_re_ast_emit_code writes, the Lean model of the chaining split vs. the chain the compiler builds (pieces, gap_min / gap_max), and the Lean model of atoms.c (heuristic quality included) vs. the atoms the compiler inserts into the automaton (hook H3) and the code positions of their entries.",
